@@ -116,14 +116,22 @@ def run_job(job, ctx):
     else:
         r = rng("c08", job["seed"], job["i"])
         blocks = [_random_block(r) for _ in range(40)]
+        _second_validator(blocks)
         eol = "\r\n" if job["i"] % 3 == 0 else "\n"
-        for c in vbatch.run_batch(ctx, blocks, "hash", "line-pattern", model, eol=eol, bom=(job["i"] % 3 == 1), sig_prefix="C08", sets_fn=_sets):
+        for c in vbatch.run_batch(ctx, blocks, "cm" if job["i"] % 4 == 2 else "hash", "line-pattern", model, eol=eol, bom=(job["i"] % 3 == 1), ignore_codes=("line-count",), sig_prefix="C08", sets_fn=_sets):
             acc.add(c)
     return acc.to_cases(h(job))
 
 
 RPATS = [r"^[a-z]+: \d+$", r"^\w+$", r"^[^ ]+$", r"^(é|e)", r"日本", r"^[A-Z]", r"\d{2,}$", r"^[a-z0-9_]+ = .+$"]
 RLINES = ["key: 1", "key: 12", "Key: 3", "word", "two words", "épée", "e", "日本語", "x = 1", "x_y = a b", "X", "abc12", "key:1", "k: 007"]
+
+
+def _second_validator(blocks):
+    """Every fifth block also carries a violated rule of another synchronous validator: two validators report on the same file."""
+    for j, b in enumerate(blocks):
+        if j % 5 == 2 and any(l.strip() for l in b.lines):      # not the first block: the main validator is detected (and joined) first
+            b.attrs = list(b.attrs) + [("line-count", "<1")]
 
 
 def _random_block(r):
